@@ -607,12 +607,17 @@ func oracle(stream, in, outp string) {
 			verdict = fmt.Sprintf("FAIL %s op=%d %s", clause, idx, wire.Enc(detail))
 		}
 	}
-	// ackChain counts consecutive answered pure ACKs per type (loop detector)
+	// asked: per type, what the client has asked for so far on this stream (delta); nonconf: the script sent
+	// initial_resource_versions on a later request of the type (not a conformant client)
+	asked := map[string]sets.Set[string]{}
+	nonconf := map[string]bool{}
 	for _, f := range wire.ReadLines(in) {
 		if f[0] == "case" {
 			flush()
 			s = newSUT()
 			verdict, caseOpen, idx = "", true, 0
+			asked = map[string]sets.Set[string]{}
+			nonconf = map[string]bool{}
 			continue
 		}
 		idx++
@@ -694,6 +699,10 @@ func oracle(stream, in, outp string) {
 			prev := snapshot(s.proxy, url)
 			nonce := wire.Dec(f[5])
 			isErr := f[6] != "-"
+			sub, unsubL, initL := wire.DecList(f[2]), wire.DecList(f[3]), wire.DecList(f[4])
+			// a delta client sends each subscription change once and may attach it to any request (also a NACK
+			// or the ACK of a response that a newer push has overtaken): the change must never be lost
+			carries := len(sub) > 0 || len(unsubL) > 0
 			res := s.apply(f)
 			if res == "crash" {
 				fail("never-crashes", strings.Join(f, " "))
@@ -701,34 +710,59 @@ func oracle(stream, in, outp string) {
 			}
 			responded := strings.HasPrefix(res, "1 ")
 			cur := snapshot(s.proxy, url)
+			stale := prev != nil && nonce != "" && nonce != prev.NonceSent
+			// history of what the client asked for on this type (conformant part: initial versions only first)
+			if prev != nil && len(initL) > 0 {
+				nonconf[url] = true
+			}
+			if prev == nil && !(isErr && !carries) {
+				asked[url] = sets.New[string]()
+				asked[url].InsertAll(sub...)
+				asked[url].InsertAll(initL...)
+				asked[url].DeleteAll(unsubL...)
+				asked[url].Delete("*")
+			} else if asked[url] != nil {
+				asked[url].InsertAll(sub...)
+				asked[url].DeleteAll(unsubL...)
+				asked[url].Delete("*")
+			}
 			switch {
-			case isErr:
-				if responded {
+			case prev == nil && isErr && !carries:
+				if responded || cur != nil {
 					fail("nack-silent", res)
 				}
 			case prev == nil:
 				if !responded {
 					fail("first-request-or-reconnect-responds", res)
 				}
-			case nonce != "" && nonce != prev.NonceSent:
+			case (isErr || stale) && !carries:
 				if responded {
-					fail("stale-nonce-silent", res)
+					if isErr {
+						fail("nack-silent", res)
+					} else {
+						fail("stale-nonce-silent", res)
+					}
+				}
+				if cur == nil || !cur.ResourceNames.Equals(prev.ResourceNames) {
+					fail("silent-request-changed-record", res)
 				}
 			default:
-				sub, unsubL := wire.DecList(f[2]), wire.DecList(f[3])
-				pure := len(sub) == 0 && len(unsubL) == 0 && len(wire.DecList(f[4])) == 0
+				pure := !carries && len(initL) == 0
 				if pure && nonce != "" && !prev.AlwaysRespond && responded {
 					fail("ack-silent", res)
 				}
 				if cur != nil && cur.AlwaysRespond {
 					fail("no-loop(always-respond-not-consumed)", res)
 				}
+				if (isErr || stale) && cur != nil && cur.NonceAcked != prev.NonceAcked {
+					fail("rejected-or-stale-ack-recorded", res)
+				}
 				managedWild := (url == v3.AddressType || url == v3.WorkloadType) && prev.Wildcard
 				if !managedWild {
 					// record = fold of the subscribe/unsubscribe history
 					want := prev.ResourceNames.Copy()
 					want.InsertAll(sub...)
-					want.InsertAll(wire.DecList(f[4])...)
+					want.InsertAll(initL...)
 					want.DeleteAll(unsubL...)
 					want.Delete("*")
 					if cur == nil || !cur.ResourceNames.Equals(want) {
@@ -739,6 +773,23 @@ func oracle(stream, in, outp string) {
 						fail("added-names-respond", res)
 					}
 				}
+			}
+			// the last sentence of the property, over the whole exchange: after a processed message that is not a
+			// rejection, the record equals everything the client has asked for so far (named types, no pushes
+			// that rewrite the names of wildcard types)
+			if !isErr && asked[url] != nil && !nonconf[url] && cur != nil && !cur.Wildcard && !xds.IsWildcardTypeURL(url) &&
+				url != v3.AddressType && url != v3.WorkloadType {
+				if !cur.ResourceNames.Equals(asked[url]) {
+					fail("record-equals-what-the-client-asked-for", res+" asked="+strings.Join(sets.SortedList(asked[url]), ","))
+				}
+			}
+		case "dsend":
+			if len(f) > 3 && f[3] != "nil" {
+				// the send rewrites the recorded names (wildcard types): the history clause does not apply any more
+				nonconf[typeURL[f[1]]] = true
+			}
+			if s.apply(f) == "crash" {
+				fail("never-crashes", strings.Join(f, " "))
 			}
 		default:
 			if s.apply(f) == "crash" {
